@@ -2,10 +2,12 @@
 (* Rule-set shapes for C09 (and C08/C15): plain rules, correlation rules referring to them
    by name or id, chains up to depth 3, unrelated rules, generate on/off, a missing reference. *)
 EXTENDS Integers, Sequences
-R(i) == [id |-> i, kind |-> "rule", name |-> i, uid |-> 100 + i, refs |-> <<>>, generate |-> FALSE]
+R(i) == [id |-> i, kind |-> "rule", name |-> i, uid |-> 100 + i, refs |-> <<>>, arefs |-> <<>>, generate |-> FALSE]
 ByName(k) == [by |-> "name", key |-> k]
 ById(k) == [by |-> "id", key |-> 100 + k]
-Cr(i, refs, gen) == [id |-> i, kind |-> "corr", name |-> i, uid |-> 100 + i, refs |-> refs, generate |-> gen]
+Cr(i, refs, gen) == [id |-> i, kind |-> "corr", name |-> i, uid |-> 100 + i, refs |-> refs, arefs |-> <<>>, generate |-> gen]
+\* arefs: rules the ALIAS definitions of the correlation rule refer to (references like those of the rule list)
+CrA(i, refs, arefs, gen) == [Cr(i, refs, gen) EXCEPT !.arefs = arefs]
 Shapes == <<
   <<R(1), R(2), Cr(3, <<ByName(1), ByName(2)>>, FALSE), R(4)>>,                                 \* 1
   <<R(1), Cr(2, <<ById(1)>>, TRUE), Cr(3, <<ByName(2)>>, FALSE), R(4)>>,                        \* 2 chain depth 2
@@ -18,6 +20,8 @@ Shapes == <<
   <<R(1), R(2), R(3), R(4), Cr(5, <<ByName(2), ByName(4)>>, FALSE)>>,                           \* 9
   <<R(1), R(2), Cr(3, <<ByName(1)>>, TRUE), Cr(4, <<ByName(2)>>, FALSE), Cr(5, <<ById(3), ById(4)>>, TRUE), R(6)>>, \* 10
   <<R(1), Cr(2, <<ByName(1)>>, TRUE), R(3)>>,                                                   \* 11 generate
-  <<R(1), R(2), R(3), R(4), R(5), Cr(6, <<ByName(5), ByName(1)>>, FALSE)>>                      \* 12
+  <<R(1), R(2), R(3), R(4), R(5), Cr(6, <<ByName(5), ByName(1)>>, FALSE)>>,                     \* 12
+  <<R(1), R(2), CrA(3, <<ByName(1), ByName(2)>>, <<ById(1), ByName(2)>>, FALSE)>>,              \* 13 alias by the other identifier
+  <<R(1), CrA(2, <<ByName(1)>>, <<ByName(9)>>, FALSE), R(3)>>                                   \* 14 alias for a missing rule
 >>
 =============================================================================
